@@ -236,23 +236,26 @@ Proof.
 Qed.
 
 (* ------------------------------------------------------------------------------------------------
-   PATH SPELLING.  The theorems above are about trees; `from` enters the code as a string.  With a
-   `from` in filepath.Clean form every entry gets its relative name; with a DIRECTORY `from` whose
-   clean form is shorter the first callback panics (finding unclean-from-directory-panics: reachable
-   through build_rule(system_srcs = ["/abs//dir"])); a `from` that is not a directory is not walked. *)
+   PATH SPELLING.  The theorems above are about trees; `from` enters the code as a string and the walk
+   reports names below filepath.Clean(from).  The directory branch cleans `from` first (fix of finding
+   unclean-from-directory-panics, reachable through build_rule(system_srcs = ["/abs//dir"]); whether it
+   does is read from the regenerated statement list), so however `from` is spelled every reported name
+   yields exactly its relative path - copying an unclean path is copying its Clean form - and the slice
+   never goes out of range; a `from` that is not a directory is not walked. *)
 Definition C34_spelling_statement : Prop :=
-  (forall from rel : str, rel_of from (from ++ rel) = Some rel)
-  /\ (forall from cleaned : str, length cleaned < length from -> walk_panics from cleaned true = true)
-  /\ (forall from cleaned : str, walk_panics from cleaned false = false).
+  (forall from cleaned rel : str, rel_of (prefix_stripped from cleaned) (cleaned ++ rel) = Some rel)
+  /\ (forall (from cleaned : str) (isdir : bool), walk_panics from cleaned isdir = false)
+  (* what the cleaning prevents *)
+  /\ (forall from cleaned : str, length cleaned < length from -> rel_of from cleaned = None).
 
 Theorem C34_spelling : C34_spelling_statement.
-Proof. exact (conj rel_of_clean (conj unclean_from_panics file_from_never_panics)). Qed.
+Proof. exact (conj rel_of_any_spelling (conj never_panics unclean_prefix_would_panic)). Qed.
 Print Assumptions C34_spelling.
 
 Example C34_nonvacuous_spelling :
-  rel_of (s "out/dir") (s "out/dir/sub/f") = Some (s "/sub/f")
-  /\ walk_panics (s "sys//dir") (s "sys/dir") true = true
-  /\ walk_panics (s "sys/./dir") (s "sys/dir") true = true
-  /\ walk_panics (s "sys/dir/") (s "sys/dir") true = true
-  /\ walk_panics (s "sys//dir/f.txt") (s "sys/dir/f.txt") false = false.
+  rel_of (prefix_stripped (s "out//dir") (s "out/dir")) (s "out/dir/sub/f") = Some (s "/sub/f")
+  /\ walk_panics (s "sys//dir") (s "sys/dir") true = false
+  /\ walk_panics (s "sys/./dir/") (s "sys/dir") true = false
+  /\ rel_of (s "sys//dir") (s "sys/dir") = None
+  /\ rel_of (s "sys/dir/") (s "sys/dir") = None.
 Proof. vm_compute. repeat split. Qed.
